@@ -124,6 +124,12 @@ class LinePostProcessor(PostProcessor):
         """
         raise NotImplementedError()
 
+    def reset(self) -> None:
+        """
+        Invoked before the first line of each generated file. Post-processors that keep state from line to line
+        override this to forget it so that no file depends on the files generated before it.
+        """
+
 
 # +---------------------------------------------------------------------------+
 # | BUILT-IN POST PROCESSORS :: FilePostProcessor
@@ -215,6 +221,9 @@ class LimitEmptyLines(LinePostProcessor):
 
     def __init__(self, max_empty_lines: int):
         self._max_empty_lines = max_empty_lines
+        self._empty_line_count = 0
+
+    def reset(self) -> None:
         self._empty_line_count = 0
 
     def __call__(self, line_and_lineend: typing.Tuple[str, str]) -> typing.Tuple[str, str]:
